@@ -15,6 +15,7 @@ from .tlc import validate_observations
 
 VAL_CONSTS = 'CONSTANTS Variant = "ok"\n PVariant = "ok"\n SVariant = "ok"\n'
 KINDS_ALL = ('kev', 'fkev', 'tr', 'cs')
+KINDS_LOGS = ('logs', 'logs', 'kev', 'fkev', 'tr')
 
 
 def make_tables(rnd, w, dumps):
@@ -39,6 +40,10 @@ def item_of(w, p, dump, kind, x):
         name = rest[:58].rstrip()
         nm = 'A' if name.startswith('A_') else 'B' if name.startswith('B_') else 'hex' if name.startswith('0x') else 'other:' + name[:20]
         return {'k': dump.ts2k.get(int(ts), -1) if ts.isdigit() else -1, 'name': nm, 'proc': parse_proc(rest[58:])}
+    if kind == 'logs':
+        import re as _re
+        m = _re.match(r'msg(\d+)$', getattr(x, 'composed_message', '') or '')
+        return {'i': int(m.group(1)) + 1 if m else -1, 'proc': parse_proc(p._format_process(x.thread_identifier))}
     if kind == 'tr':
         return {'k': dump.k_of(x.ktraces[-1]), 'first': dump.k_of(x.ktraces[0]),
                 'proc': parse_proc(p._format_process(x.ktraces[0].tid))}
@@ -106,7 +111,7 @@ def run_session(rnd, w, dumps, kinds, gen_cfg, nacts=14, max_gens=4, scenarios=N
         a = {'op': 'badopen', 'kind': kind}
         try:
             rd = io.BytesIO(junk)
-            it = {'kev': p.kevents, 'fkev': p.formatted_kevents, 'tr': p.traces, 'cs': p.callstacks}[kind](rd)
+            it = {'kev': p.kevents, 'fkev': p.formatted_kevents, 'tr': p.traces, 'cs': p.callstacks, 'logs': p.os_log_events}[kind](rd)
             a['err'] = 'accepted'           # whether junk is refused at call time or at the first next() is not pinned:
             try:                            # either way nothing may come out of it
                 x = next(iter(it))
@@ -139,7 +144,7 @@ def run_session(rnd, w, dumps, kinds, gen_cfg, nacts=14, max_gens=4, scenarios=N
     def do_open(kind=None):
         kind = kind or rnd.choice(kinds)
         d = rnd.randrange(len(dumps))
-        codes = rnd.choice(['A', 'B']) if kind == 'fkev' else '-' if kind == 'kev' else 'W'
+        codes = rnd.choice(['A', 'B']) if kind == 'fkev' else '-' if kind in ('kev', 'logs') else 'W'
         rd = reader_of(dumps[d].blob)
         kw = rnd.random() < 0.3             # arguments by keyword
         try:
@@ -147,6 +152,8 @@ def run_session(rnd, w, dumps, kinds, gen_cfg, nacts=14, max_gens=4, scenarios=N
                 it = p.kevents(kdebug=rd) if kw else p.kevents(rd)
             elif kind == 'fkev':
                 it = p.formatted_kevents(kdebug=rd, trace_codes=tabobj[codes]) if kw else p.formatted_kevents(rd, tabobj[codes])
+            elif kind == 'logs':
+                it = p.os_log_events(kdebug=rd) if kw else p.os_log_events(rd)
             elif kind == 'tr':
                 it = p.traces(kdebug=rd, trace_codes=wcodes) if kw else p.traces(rd, wcodes)
             else:
@@ -402,6 +409,7 @@ MC = {
 }
 
 
+EXTRA_POS = {'C12': (2, 9, '"logs", "kev", "tr"', 'CfgLogs', 'logs'), 'C14': (2, 9, '"logs", "fkev"', 'CfgLogs', 'logs')}
 EXTRA_NEG = {'C14': ((2, 10, '"tr", "fkev"', 'CfgNone', 'learn', 'clearAtOpen'), 'tables cleared when a listing is requested, filled at its first next()')}
 
 
@@ -409,6 +417,8 @@ def model_check(ctx):
     """Sessions_MC for the calling property: positive configuration(s) and its negative control"""
     from .tlc import run_tlc
     pos, more, (neg, what) = MC[ctx.prop]
+    if ctx.prop in EXTRA_POS:
+        pos = pos + [EXTRA_POS[ctx.prop]]
     if ctx.prop in EXTRA_NEG:
         n2, w2 = EXTRA_NEG[ctx.prop]
         ctx.expect_violation(run_tlc('Sessions_MC', MC_CFG % n2, ctx.workdir, name='sessions_neg_' + n2[5], timeout=900,
